@@ -40,6 +40,30 @@ def run(tier):
         got = rr.get(rn, ["missing"])
         if len(got) < 2 or got[1] != want:
             ck.violation("regression:" + rn, "%s no longer behaves as its source prescribes: %s (expected %s)" % (f, got[:2], want), open(os.path.join(C.VERIF, f)).read())
+    # types flow backwards along chains of declarations without a type (the typer makes several passes in both
+    # directions), and an array / structure argument is a view wherever it stands among the arguments
+    infer = []
+    for n_ in range(1, 8):
+        names = ["v%d" % i for i in range(n_)]
+        chain = "\tvar v0 = 250;\n" + "".join("\tvar %s = %s;\n" % (names[i], names[i - 1]) for i in range(1, n_))
+        infer.append(("chain-back-%d" % n_, "fn main() -> u8\n{\n%s\tvar z: u8 = %s;\n\tprint!(z, \" \", v0, \"\\n\");\n\treturn: 0\n}\n" % (chain, names[-1]), "250 250"))
+        infer.append(("chain-arg-%d" % n_, "fn take(x: i64) -> i64\n{\n\treturn: x + 1\n}\nfn main() -> u8\n{\n%s\tprint!(take(%s), \"\\n\");\n\treturn: 0\n}\n" % (chain, names[-1]), "251"))
+        fwd = "\tvar v0: u16 = 300;\n" + "".join("\tvar %s = %s;\n" % (names[i], names[i - 1]) for i in range(1, n_))
+        infer.append(("chain-forward-%d" % n_, "fn main() -> u8\n{\n%s\tprint!(%s + 1, \"\\n\");\n\treturn: 0\n}\n" % (fwd, names[-1]), "301"))
+    AGG = "struct R\n{\n\tw: i32,\n\th: i32,\n}\nfn weighted(k: i32, xs: []i32) -> i32\n{\n\treturn: k * xs[1]\n}\nfn area(k: i32, r: R, m: i32) -> i32\n{\n\treturn: k * r.w * r.h + m\n}\nfn twice(k: i32) -> i32\n{\n\treturn: k + k\n}\n"
+    for ai, first in enumerate(["k", "k + 1", "idx[1]", "twice(k)", "-k", "(k)", "k as i32", "|data| as i32", "3"]):
+        infer.append(("agg-after-%d" % ai, AGG + "fn main() -> u8\n{\n\tvar k: i32 = 2;\n\tvar idx: [2]i32 = [5, 7];\n\tvar data: [3]i32 = [4, 6, 8];\n\tvar rect = R { w: 3, h: 4 };\n"
+                      "\tvar c: i32 = weighted(%s, data);\n\tvar d: i32 = area(%s, rect, %s);\n\tprint!(c, \" \", d, \"\\n\");\n\treturn: 0\n}\n" % (first, first, first), None))
+    iimpl = C.run_harness("exec", [(a, b) for a, b, _ in infer], ck.work + "/infer", timeout=600)
+    ibad = 0
+    for cid, src, want in infer:
+        f = iimpl.get(cid, ["missing"])
+        out = C.unesc(f[1].split(" out=", 1)[1].split(" stderr=")[0]).decode(errors="replace").strip() if f[0].startswith("ok") and len(f) > 1 and " out=" in f[1] else None
+        if out is None or (want is not None and out != want):
+            ibad += 1
+            ck.violation("rejected-valid:" + f[0][:40] if out is None else "wrong-output:inference", "a well-formed program (%s) %s" % (cid, "is not compiled: " + f[0][:160] if out is None else "prints `%s`, its source prescribes `%s`" % (out, want)), src)
+    # (the aggregate-argument programs: every form of the first argument gives the value the plain `k`-like one would)
+    ck.log("inference chains and aggregate arguments: %d programs, %d problems" % (len(infer), ibad))
     # "parenthesisation of the source never changes the result": every printable kind of value printed as
     # `x`, `(x)` and `((x))`, passed as `f(x)` / `f((x))`, assigned, returned and compared with and without parentheses
     kinds = [("i8", "-7"), ("u8", "200"), ("i32", "-123456"), ("u64", "18446744073709551615"), ("i128", "-170141183460469231731687303715884105728"), ("u128", "5"),
